@@ -126,10 +126,20 @@ fn rec() -> std::sync::MutexGuard<'static, Recorder> {
     REC.lock().unwrap_or_else(|p| p.into_inner())
 }
 
+/// Text appended to the detail of violations raised from now on (an oracle sets it while it judges operations whose
+/// first divergence would carry an open finding's signature; empty otherwise).
+pub static VIOLATION_SUFFIX: Mutex<String> = Mutex::new(String::new());
+pub fn set_violation_suffix(s: &str) {
+    let mut g = VIOLATION_SUFFIX.lock().unwrap();
+    if *g != s {
+        *g = s.to_string();
+    }
+}
 pub fn violation(class: &str, detail: impl Into<String>) {
+    let suffix = VIOLATION_SUFFIX.lock().unwrap().clone();
     let mut r = rec();
     if r.violation.is_none() {
-        r.violation = Some((class.to_string(), detail.into()));
+        r.violation = Some((class.to_string(), format!("{}{}", detail.into(), suffix)));
     }
 }
 pub fn has_violation() -> bool {
